@@ -6,7 +6,10 @@ EventLoopScheduler family, whose model is C31's; here: oracle), immediate (no th
 are made directly with the controlled clock and compared with the functions of Core/RealTime.v).
 
 A case: {"kind", "t0", "progs": [[op...]...], "ticks": [...]},
-op = ["now", a] | ["rel", d_us, a] | ["abs", t_us, a] | ["cancel", a]."""
+op = ["now", a] | ["rel", d_us, a] | ["abs", t_us, a] | ["cancel", a];
+optional "bodies" (calls made from inside an action), "body_sched" ("arg": those calls go to the scheduler the
+action was handed -- the inner one-shot EventLoopScheduler on NewThread / ThreadPool), "repr" ("float": due times
+as float seconds / POSIX timestamps) and ["periodic", p, a] with "pspec" -- see eldrv.py."""
 from __future__ import annotations
 
 import ast
@@ -33,7 +36,7 @@ def make_scheduler(case):
     if k == "timeout":
         return TimeoutScheduler()
     if k == "eventloop":
-        return EventLoopScheduler()
+        return EventLoopScheduler(exit_if_empty=bool(case.get("eie")))
     if k == "newthread":
         return NewThreadScheduler()
     if k == "threadpool":
@@ -125,7 +128,7 @@ def g_case_timeout(case, r):
     progs = "[" + "; ".join("[" + "; ".join(g_top(o) for o in p) + "]" for p in case["progs"]) + "]"
     mv = []
     for m in r.moves:
-        mv.append(f"TMTick {m[1]}%nat" if m[0] == "tick" else f"TMStep {E.model_tid(r, m[1])}%nat")
+        mv.append(f"TMTick {m[1]}%N" if m[0] == "tick" else f"TMStep {E.model_tid(r, m[1])}%nat")
     inp = f"({lib.gz(case.get('t0', 0))}, {progs}, [{'; '.join(mv)}])"
     obs = []
     for e in r.log:
@@ -166,15 +169,15 @@ def oracle(case, r):
         if e[2] == "thread-died":
             bad.append((f"C34 thread-died|{kind}|{e[3]}", f"thread {e[0]} died: {e[3:]}"))
     due = {}
-    for p in case["progs"]:
-        for op in p:
-            if op[0] in ("now", "rel", "abs"):
-                a = op[-1]
-                i = pos.get(("call", a))
-                if i is None:
-                    continue
-                t_call = log[i][1]
-                due[a] = op[1] if op[0] == "abs" else t_call + (max(0, op[1]) if op[0] == "rel" else 0)
+    allops = E.all_ops(case)           # programs and action bodies (recursive scheduling from inside an action)
+    for op in allops:
+        if op[0] in ("now", "rel", "abs"):
+            a = op[-1]
+            i = pos.get(("call", a))
+            if i is None:
+                continue
+            t_call = log[i][1]
+            due[a] = op[1] if op[0] == "abs" else t_call + (max(0, op[1]) if op[0] == "rel" else 0)
     for e in log:
         if e[2] == "start":
             a = e[3]
@@ -192,7 +195,7 @@ def oracle(case, r):
     if stuck_other:
         bad.append((f"C34 deadlock|{kind}", f"threads {stuck_other} blocked for ever"))
     # sanity, not part of the property: an action that was never disposed of runs once the clock passed its due time
-    cancelled = {op[1] for p in case["progs"] for op in p if op[0] == "cancel"}
+    cancelled = {op[1] for op in allops if op[0] == "cancel"}
     for a in due:
         if a not in cancelled and pos.get(("ret", a)) is not None and pos.get(("start", a)) is None:
             bad.append(("NOTE never-ran", f"action {a} never ran"))
@@ -203,9 +206,10 @@ def oracle(case, r):
 # ImmediateScheduler: direct calls
 # --------------------------------------------------------------------------
 
-def run_immediate(t0, op, later):
+def run_immediate(t0, op, later, rep="td"):
     """-> list of (kind, label, clock-of-start or 0).  `later`: the clock advances by that much right after
-    the scheduler read it (between `self.now` and the action)."""
+    the scheduler read it (between `self.now` and the action).  rep: "td" = timedelta / datetime arguments,
+    "float" = float seconds (relative) / POSIX timestamp (absolute)."""
     clock = kt.Clock(t0, yield_on_read=False)
     E.RB.set_clock(clock)
     log = []
@@ -226,9 +230,9 @@ def run_immediate(t0, op, later):
         if op[0] == "now":
             s.schedule(action)
         elif op[0] == "rel":
-            s.schedule_relative(timedelta(microseconds=op[1]), action)
+            s.schedule_relative(timedelta(microseconds=op[1]) if rep == "td" else op[1] / 1e6, action)
         else:
-            s.schedule_absolute(clock.at(op[1]), action)
+            s.schedule_absolute(clock.at(op[1]) if rep == "td" else clock.at(op[1]).timestamp(), action)
         log.append(("ret", a, 0))
     except WouldBlockException:
         log.append(("raise", a, 0))
